@@ -120,7 +120,8 @@ def raw_inverse_paths(repo: Repo, rep, P: str, rule: str):
                               f"{rel}:{dn.lineno}")
         rep.count("set_raw_value_definitions", n_defs, 2)
     # ---------------- get_raw
-    gfn = repo.own_method(mod, "get_raw")
+    from .. import inline
+    gfn = inline.flatten(repo, mod, repo.own_method(mod, "get_raw"))
     rep.func("rv.modules.module.Module.get_raw")
     gcon = f"{rel}:Module.get_raw"
     conv = set()
@@ -134,19 +135,40 @@ def raw_inverse_paths(repo: Repo, rep, P: str, rule: str):
     gname = [a.arg for a in gfn.args.args if a.arg != "self"][0]
     for r in rets:
         v = r.value
-        ok = isinstance(v, ast.Call) and isinstance(v.func, ast.Name) and v.func.id in conv and len(v.args) == 1
+        ok = isinstance(v, ast.Call) and len(v.args) == 1 and \
+            ((isinstance(v.func, ast.Name) and v.func.id in conv) or (isinstance(v.func, ast.Attribute) and v.func.attr == "to_raw_value"))
         if ok:
             arg = v.args[0]
-            # 0 if value is None else value
             names = {n.id for n in ast.walk(arg) if isinstance(n, ast.Name)}
-            src_ok = False
-            for n in walk_no_nested(gfn):
-                if isinstance(n, ast.Assign) and isinstance(n.targets[0], ast.Name) and n.targets[0].id in names \
-                        and norm(n.value) == f"getattr(self, {gname})":
-                    src_ok = True
-            none_ok = isinstance(arg, ast.IfExp) and norm(arg.test).endswith("is None") and norm(arg.body) == "0"
-            enum_ok = any(isinstance(n, ast.If) and "isinstance(value, Enum)" in norm(n.test)
-                          and any(norm(s) == "value = value.value" for s in n.body) for n in walk_no_nested(gfn))
+            # the value variable: assigned from getattr(self, name)
+            src_vars = {n.targets[0].id for n in walk_no_nested(gfn) if isinstance(n, ast.Assign) and isinstance(n.targets[0], ast.Name)
+                        and norm(n.value) == f"getattr(self, {gname})"}
+            # follow plain copies / the inlined helper's parameter temporaries
+            changed = True
+            while changed:
+                changed = False
+                for n in walk_no_nested(gfn):
+                    if isinstance(n, ast.Assign) and isinstance(n.targets[0], ast.Name) and isinstance(n.value, ast.Name) \
+                            and n.value.id in src_vars and n.targets[0].id not in src_vars:
+                        src_vars.add(n.targets[0].id)
+                        changed = True
+            src_ok = bool(names & src_vars) or any(isinstance(n, ast.Assign) and isinstance(n.targets[0], ast.Name) and n.targets[0].id in names
+                                                   and any(isinstance(m, ast.Name) and m.id in src_vars for m in ast.walk(n.value))
+                                                   for n in walk_no_nested(gfn))
+
+            def is_none_test(t, var_ok):
+                return isinstance(t, ast.Compare) and len(t.ops) == 1 and isinstance(t.ops[0], ast.Is) and norm(t.comparators[0]) == "None"
+            none_ok = isinstance(arg, ast.IfExp) and is_none_test(arg.test, lambda x: True) and norm(arg.body) == "0"
+            none_ok = none_ok or any(isinstance(n, ast.If) and is_none_test(n.test, lambda x: True) and len(n.body) == 1
+                                     and isinstance(n.body[0], ast.Assign) and norm(n.body[0].value) == "0"
+                                     and norm(n.body[0].targets[0]) == norm(n.test.left) for n in walk_no_nested(gfn))
+            none_ok = none_ok or any(isinstance(n, ast.IfExp) and is_none_test(n.test, lambda x: True) and norm(n.body) == "0" for n in walk_no_nested(gfn))
+            enum_ok = any(isinstance(n, ast.If) and isinstance(n.test, ast.Call) and norm(n.test.func) == "isinstance" and len(n.test.args) == 2
+                          and norm(n.test.args[1]).split(".")[-1] in ("Enum", "IntEnum")
+                          and any(isinstance(b, ast.Assign) and norm(b.value) == f"{norm(n.test.args[0])}.value" for b in n.body)
+                          for n in walk_no_nested(gfn))
+            enum_ok = enum_ok or any(isinstance(n, ast.IfExp) and isinstance(n.test, ast.Call) and norm(n.test.func) == "isinstance"
+                                     and norm(n.body).endswith(".value") for n in walk_no_nested(gfn))
             if src_ok and none_ok and enum_ok:
                 rep.ok(f"{P}.{rule}", gcon, norm(r), "to_raw_value(attribute value; enum → .value; None → 0)")
             else:
@@ -158,7 +180,7 @@ def raw_inverse_paths(repo: Repo, rep, P: str, rule: str):
                           "get_raw returns a value that does not pass through to_raw_value: the stored form of offset "
                           "ranges is wrong", f"{rel}:{r.lineno}")
     # both sides resolve the value type the same way
-    s_src, g_src = norm(fn), norm(gfn)
+    s_src, g_src = norm(inline.flatten(repo, mod, fn)), norm(gfn)
     if "instance_value_type(self)" in s_src and "instance_value_type(self)" in g_src:
         rep.ok(f"{P}.{rule}", construct, "t = controller.instance_value_type(self)", "same value-type resolution in get_raw and set_raw", nontrivial=False)
     else:
@@ -322,7 +344,9 @@ def _param_names(f) -> Set[str]:
 
 # ------------------------------------------------------------------------------------ R4
 def lenient_read(repo: Repo, rep, P: str):
-    fn = repo.func("rv.readers.reader", "read_sunvox_file")
+    from ..cfg import desugar_exitstack
+    from .. import inline
+    fn = desugar_exitstack(inline.flatten(repo, None, repo.func("rv.readers.reader", "read_sunvox_file"), sf=repo.module("rv.readers.reader")))
     sf = repo.module("rv.readers.reader")
     arg = None
     for n in walk_no_nested(fn):
@@ -348,15 +372,16 @@ def lenient_read(repo: Repo, rep, P: str):
                       "loading runs in strict mode: a file carrying an out-of-range controller value raises instead of loading",
                       f"{sf.rel}:{fn.lineno}")
     # the validation helper only raises under the flag
-    h = repo.func("rv.errors", "raise_or_warn_controller_value_validation")
-    body = [s for s in h.body if not (isinstance(s, ast.Expr) and isinstance(s.value, ast.Constant))]
-    ok = len(body) == 2 and isinstance(body[0], ast.If) and norm(body[0].test) == "RAISE_CONTROLLER_VALUE_ERRORS" \
-        and isinstance(body[0].body[0], ast.Raise) and "log.warning" in norm(body[1])
-    if ok:
-        rep.ok(f"{P}.R4", "src/python/rv/errors.py:raise_or_warn_controller_value_validation", "if FLAG: raise …; log.warning(…)")
+    from . import c09
+    verdict, text, h = c09.strict_only_raise(repo)
+    hcon = "src/python/rv/errors.py:raise_or_warn_controller_value_validation"
+    if verdict == "ok":
+        rep.ok(f"{P}.R4", hcon, text)
+    elif verdict == "bad":
+        rep.violation(f"{P}.R4", hcon, norm(h)[:160],
+                      f"validation failures must raise only in strict mode and otherwise just warn ({text})", f"src/python/rv/errors.py:{h.lineno}")
     else:
-        rep.violation(f"{P}.R4", "src/python/rv/errors.py:raise_or_warn_controller_value_validation", norm(h)[:160],
-                      "validation failures must raise only in strict mode and otherwise just warn", f"src/python/rv/errors.py:{h.lineno}")
+        rep.inconclusive(f"{P}.R4", hcon, norm(h)[:160], f"strict/lenient split not recognised ({text})", f"src/python/rv/errors.py:{h.lineno}")
 
 
 def canonical_forms(repo: Repo, rep, P: str):
